@@ -28,6 +28,8 @@ BAG = {
     "pci": '<<"join","join","reg","reg","unreg","pcall","pcall","pcall","pcall","yield","yield","inverr","cancel","call","leave","adv">>',
     # payload passthru mode: publishers, callers and callees that announced the feature or did not
     "ppt": '<<"join","join","join","reg","reg","call","call","call","answer","answer","answer","pub","pub","sub","sub","leave","adv","cancel">>',
+    # wamp.session.modify_details: identity details change or go; then filters, disclosure, kills, the meta API
+    "mod": '<<"join","join","sub","sub","reg","mmod","mmod","mmod","pub","pub","call","msess","msess","kill","leave">>',
     "killx": '<<"join","join","sub","wsub","tst","tst","kill","kill","kill","leave","msess","pub">>',
     "stallburst": '<<"join","join","sub","sub","sub","stall","bpub","bpub","bpub","resume","pub","leave">>',
     "burst": '<<"join","join","sub","sub","sub","reg","pub","bpub","bpub","bpub","leave","bmix">>',
@@ -47,7 +49,8 @@ PROPS = {
                 mc=dict(kinds=["join", "sub", "unsub", "pub", "leave"], inv=MC_PUBSUB,
                         quick=dict(steps=5, nsess=2), thorough=dict(steps=6, nsess=3)),
                 gen=[dict(bag="pubsub", depth=16, quick=160, thorough=2500),
-                     dict(bag="ppt", depth=16, quick=50, thorough=800, mode="ppt")],
+                     dict(bag="ppt", depth=16, quick=50, thorough=800, mode="ppt"),
+                     dict(bag="mod", depth=16, quick=50, thorough=800)],
                 classes=["pubsub"]),
     "C02": dict(family="core",
                 mc=dict(kinds=MC_RPC_KINDS,
@@ -88,7 +91,8 @@ PROPS = {
                         quick=dict(steps=5, nsess=2), thorough=dict(steps=6, nsess=3)),
                 gen=[dict(bag="meta", depth=18, quick=140, thorough=2500),
                      dict(bag="kill", depth=18, quick=80, thorough=2000),
-                     dict(bag="tst", depth=18, quick=80, thorough=1500)],
+                     dict(bag="tst", depth=18, quick=80, thorough=1500),
+                     dict(bag="mod", depth=16, quick=80, thorough=1500)],
                 classes=["sess", "meta", "metaapi", "rpcreply", "pubsub"]),
     "C20": dict(family="core",
                 mc=dict(kinds=["join", "sub", "unsub", "pub", "leave"], inv=MC_PUBSUB + ["C20_Retention"],
@@ -123,7 +127,8 @@ PROPS = {
                         quick=dict(steps=4, nsess=3), thorough=dict(steps=6, nsess=3), mode="authz"),
                 gen=[dict(bag="mixed", depth=20, quick=160, thorough=3000, mode="authz"),
                      dict(bag="authzrpc", depth=16, quick=120, thorough=2000, mode="authz"),
-                     dict(bag="meta", depth=16, quick=60, thorough=1000, mode="authz")],
+                     dict(bag="meta", depth=16, quick=60, thorough=1000, mode="authz"),
+                     dict(bag="mod", depth=16, quick=60, thorough=1000, mode="authz")],
                 classes=["sess", "pubsub", "meta", "metaapi", "rpcreply", "rpcroute", "rpcintr"]),
     "C11": dict(family="core", realms=True,
                 mc=dict(kinds=["join", "sub", "pub", "reg", "call", "yield", "leave", "kill"], inv=["TablesOK", "C05_NoTrace"],
@@ -140,7 +145,8 @@ PROPS = {
                         quick=dict(steps=4, nsess=2), thorough=dict(steps=5, nsess=2)),
                 gen=[dict(bag="disc", depth=18, quick=160, thorough=2000),
                      dict(bag="disc", depth=16, quick=120, thorough=2000, mode="disc"),
-                     dict(bag="hist", depth=16, quick=60, thorough=800, mode="hist")],
+                     dict(bag="hist", depth=16, quick=60, thorough=800, mode="hist"),
+                     dict(bag="mod", depth=16, quick=60, thorough=1000, mode="disc")],
                 classes=["sess", "pubsub", "details", "meta", "metaapi", "rpcroute", "rpcreply"], poison=True),
     "C04": dict(family="hostile", classes=["sess", "pubsub", "rpcreply", "rpcroute", "rpcintr", "metaapi", "meta"]),
     "C19": dict(family="funcs"),
